@@ -326,9 +326,29 @@ def run(prop, tier, seed, shard, nshards):
                 subj = Subject(sp, scenario=sc, route="nasim-generator")
             else:
                 sp = synth.synth(rng, tier)
+                if rng.random() < 0.35:
+                    # the same exploit (and escalation) defined twice under
+                    # two names: equal as actions, distinct as definitions
+                    from ..spec import spec_from_canonical
+                    can = sp.canonical()
+                    n0 = rng.choice(can["exploit_order"])
+                    can["exploits"][n0 + "_alt"] = dict(can["exploits"][n0])
+                    can["exploit_order"] = list(can["exploit_order"]) + \
+                        [n0 + "_alt"]
+                    if can.get("privesc_order"):
+                        p0 = rng.choice(can["privesc_order"])
+                        can["privescs"][p0 + "_alt"] = \
+                            dict(can["privescs"][p0])
+                        can["privesc_order"] = \
+                            list(can["privesc_order"]) + [p0 + "_alt"]
+                    sp = spec_from_canonical(can, name=sp.name,
+                                             origin=sp.origin)
+                    dup = True
+                else:
+                    dup = False
                 route = sp.origin.split(":")[1]
                 src = {"type": "synth", "route": route,
-                       "spec": sp.canonical()}
+                       "spec": sp.canonical(), "dup": dup}
                 subj = Subject(sp, route=route)
             k = rng.randrange(2 ** 31)
             np.random.seed(k)
@@ -342,6 +362,9 @@ def run(prop, tier, seed, shard, nshards):
                 if (term or trunc) and rng.random() < 0.5:
                     actions.append("reset")
                     subj.env.reset()
+            if src.get("dup"):
+                acc.count("trajectories_on_scenarios_with_duplicate_"
+                          "definitions")
             cases.append({"type": "traj", "source": src, "seed": k,
                           "actions": actions,
                           "modes": {"fully_obs": rng.random() < 0.5,
